@@ -39,7 +39,10 @@ def _loop(ctx, r, body, srcsig):
 def _legacy_atoms(body, limit):
     """atoms of the legacy exemption: network == Mainnet / Testnet, height < limit"""
     out = {}
-    for e, c, bi in q.cmp_atoms(body):
+    M = ("Eq($1.network, NetID::Mainnet{})", "Eq(NetID::Mainnet{}, $1.network)")
+    T = ("Eq($1.network, NetID::Testnet{})", "Eq(NetID::Testnet{}, $1.network)")
+    want = lambda c: c in M or c in T or c.startswith("Lt($1.height.0, ")
+    for e, c, bi in q.pick_atoms(body, want):           # either polarity of each test (`net != Mainnet`, `height >= limit`, matches!)
         if c in ("Eq($1.network, NetID::Mainnet{})", "Eq(NetID::Mainnet{}, $1.network)"):
             out.setdefault("mainnet", []).append(e)
         elif c in ("Eq($1.network, NetID::Testnet{})", "Eq(NetID::Testnet{}, $1.network)"):
@@ -66,7 +69,8 @@ def r2_registration(ctx):
     r.check(sig(re_[2][1]) == "Transaction::hash_nosigs(%s)" % EL, "register/key", "key = tx.hash_nosigs()", "key = %s" % sig(re_[2][1]), body.where(rb))
     r.check(sig(re_[2][2]) == DOC, "register/value", "value = the decoded StakeDoc", "value = %s" % sig(re_[2][2]), body.where(rb))
     # kind atom
-    kinds = [e for e, c, bi in q.cmp_atoms(body) if c == "Eq(%s.kind, TxKind::Stake{})" % EL or c == "Eq(TxKind::Stake{}, %s.kind)" % EL]
+    KS = ("Eq(%s.kind, TxKind::Stake{})" % EL, "Eq(TxKind::Stake{}, %s.kind)" % EL)
+    kinds = [e for e, c, bi in q.pick_atoms(body, lambda c: c in KS) if c in KS]        # `kind == Stake {..}` or `kind != Stake {continue}` or matches!
     r.check(bool(kinds), "kind", "only Stake transactions are considered", "no kind == Stake test")
     if kinds:
         f = force(body, {kinds[0]: 0})
